@@ -12,7 +12,7 @@ for d in sorted(glob.glob('/verif/mutants/own-*')):
     own.append((os.path.basename(d), note[0][:170], note[-1] if len(note)>1 else ''))
 out=[]
 out.append("### 15.8 Results log\n")
-for name in ['determinism_result.txt','seed_sweep_result.txt','thorough_result.txt']:
+for name in ['determinism_result.txt','seed_sweep_result.txt','benign_result.txt','thorough_result.txt']:
     p='/verif/tools/'+name
     if os.path.exists(p):
         out.append(open(p).read().rstrip()+"\n")
